@@ -1,8 +1,9 @@
 """HOSTILE — every single-value SEMANTIC corruption of small Edgebreaker streams through the full public decoder
-(search-only sub-check of C02 / C03 / C18; harness/h_hostile.cc).  Its '!' lines are tagged "C02 …", "C03 …", "C18 …"
-exactly like h_dec's: a property that lists HOSTILE in SUBCHECKS takes its own (FAIL_PREFIXES is set from ctx.prop when
-corr_runs is called); run standalone (./check HOSTILE) it takes all of them, and the SELFCHECK lines of the harness
-(serialiser != real encoder on an unmodified script) always count."""
+(search-only sub-check of C02 / C03 / C18; harness/h_hostile.cc).  Every '!' line starts with "! C02", "! C03" or "! C18"
+(exactly like h_dec's; suffixed tags: "C02-SELFCHECK" = the harness's own serialiser / simulation no longer reproduces the real
+encoder, "C03-unreferenced-point-after-misglued-interior-start-face" = the class of defect D24, fixed in /repo a3a73f7).
+FILTER_BY_PARENT: a property that lists HOSTILE in SUBCHECKS takes the lines with its own prefix (props/decsearch.py);
+run standalone (./check HOSTILE) all of them count."""
 import os, re, json
 import vcheck as V
 LEVEL = "proof"
@@ -10,7 +11,7 @@ LEVEL = "proof"
 # corner without right corner is the left-most corner of its vertex (DepthFirstTraverser's unchecked GetRightCorner is safe there).
 # (The serialiser of the harness is the C++ port of TRAV's enc_conn, coq/Model/EbTraversal.v, and is validated by its self-check.)
 PROP_FILE = "Properties_HOSTILE.v"
-FAIL_PREFIXES = None
+FILTER_BY_PARENT = True
 RULE = ("cases = valid Edgebreaker streams of small meshes (tetrahedron, octahedron, grids with holes, cylinder, tori incl. multi-edge "
         "torus, fans, strips, pillow, several components, non-manifold identifications; <= 40 faces) produced by the REAL encoder through "
         "recording traversal encoders: both traversal methods (standard / valence), 0..3 attribute data (tex coords, normals, per-face "
@@ -43,23 +44,12 @@ ENV = {"ASAN_OPTIONS": "detect_leaks=0:allocator_may_return_null=1:abort_on_erro
        "UBSAN_OPTIONS": "halt_on_error=1:abort_on_error=1"}
 
 def corr_runs(ctx):
-    # taken as a sub-check of C02 / C03 / C18 only that property's lines count (plus the harness's own self-check)
-    global FAIL_PREFIXES
-    FAIL_PREFIXES = [ctx.prop, "SELFCHECK"] if re.fullmatch(r"C\d\d", ctx.prop) else None
     return [dict(tag="h_hostile", harness="hostile", driver=None, args=[ctx.tier, ctx.seed], flavour="asan", env=ENV, timeout=3000),
             # the plain build with other random choices (meshes, quantization, pairs, grown scripts): C03 / C18 oracles, hard crashes, hangs
             dict(tag="h_hostile_O1", harness="hostile", driver=None, args=[ctx.tier, ctx.seed + 1000], flavour="O1", timeout=3000)]
 
 def nontrivial(line):
     return line.rstrip().endswith("| acc") or line.rstrip().endswith("| rej-after-connectivity")
-
-def classify(line):
-    # consequence of the pinned finding of Properties_EB.v (C03_eb_opposite_edges_refuted: an interior start face is glued without
-    # comparing vertices): AssignPointsToCorners walks a fan that mixes two vertices, a point id ends up on no face and every
-    # attribute maps it to kInvalidAttributeValueIndex
-    if line.startswith("! C03-unreferenced-point-after-misglued-interior-start-face"):
-        return "edgebreaker-misglued-interior-start-face-unreferenced-point"
-    return None
 
 def extra(ctx, lib):
     for tag in ("h_hostile", "h_hostile_O1"):
